@@ -110,10 +110,11 @@ function tc(f){ try { return f() } catch (e) { return e.name } finally { tc.n = 
 function getset(){ var o = { get g(){ return this._g || 0 }, set g(v){ this._g = v * 2 } }; o.g = 4; return o.g }
 function withs(o){ with (o) { var r = typeof w; w = 1 } return r + o.w }
 function evals(k){ var local = k; return eval("var viaEval = local + 1; viaEval * 2") + Function("q", "return q + 1")(k) }
+function forinit(o){ var seen = []; for (var k = (seen.push("init"), "none") in o) seen.push(k); return seen.join() + ":" + k }
 function closures(){ var fs = []; for (var i = 0; i < 3; i++) { fs.push((function(j){ return function(){ return j++ } })(i)) } return fs.map(function(f){ f(); return f() }).join() }
 var out = [];
 for (var round = 0; round < 3; round++) {
-  out.push(exact("p", "q"), exact(1, 2), fewer(1), more(1, 2, 3), unmapped(1, 2), hoist(round), labels(5), sw(1), sw("1"), sw(3), rx("aab a aaab"), tc(function(){ null.x }), tc(function(){ return 1 }), getset(), withs({w: 0}), evals(round), closures());
+  out.push(exact("p", "q"), exact(1, 2), fewer(1), more(1, 2, 3), unmapped(1, 2), hoist(round), labels(5), sw(1), sw("1"), sw(3), rx("aab a aaab"), tc(function(){ null.x }), tc(function(){ return 1 }), getset(), withs({w: 0}), evals(round), closures(), forinit({}), forinit({p: 1, q: 2}));
   out.push([3, 1, 2].sort(function(a, b){ return a - b }).join(""), typeof exact.call, new exact(3, 4) instanceof exact, exact.apply(null, ["x", "y"]), exact.bind(null, "b1")("b2"));
 }
 log(out.join("|"));
